@@ -187,7 +187,7 @@ func ruleIfaceTypes(p *Prog, r *Report) {
 				k := ord[callee.Name()]
 				ord[callee.Name()]++
 				key := fmt.Sprintf("%s:producer:%s->%s#%d", rule, FnName(fn), callee.Name(), k)
-				prods, user, unknown := ifaceProducers(call.Common().Args[vi])
+				prods, user, unknown := ifaceProducers(p, call.Common().Args[vi])
 				var bad []string
 				var names []string
 				for tn := range prods {
@@ -218,10 +218,14 @@ func ruleIfaceTypes(p *Prog, r *Report) {
 
 // ifaceProducers collects the dynamic types stored into the []interface{}
 // value s (through append chains, indexed stores and phis).
-func ifaceProducers(s ssa.Value) (prods map[string]bool, user bool, unknown string) {
+func ifaceProducers(p *Prog, s ssa.Value) (prods map[string]bool, user bool, unknown string) {
 	prods = map[string]bool{}
 	seenS := map[ssa.Value]bool{}
 	seenV := map[ssa.Value]bool{}
+	// via is the call through which the walk entered the helper it is in (one
+	// level of context: a helper's parameter then means that call's argument,
+	// not the arguments of all its callers)
+	var via *ssa.Call
 	var elem func(v ssa.Value, d int)
 	// results follows a call into a helper of the module: what the helper
 	// returns at that result position is what the call yields
@@ -230,11 +234,16 @@ func ifaceProducers(s ssa.Value) (prods map[string]bool, user bool, unknown stri
 		if g == nil || !InModule(g) || g.Blocks == nil || idx >= g.Signature.Results().Len() {
 			return false
 		}
+		// each call is walked with its own visited set: the helper's values
+		// mean something else for every caller
+		saved, savedSeen := via, seenV
+		via, seenV = c, map[ssa.Value]bool{}
 		for _, b := range g.Blocks {
 			if ret, ok := b.Instrs[len(b.Instrs)-1].(*ssa.Return); ok {
 				elem(ret.Results[idx], d+1)
 			}
 		}
+		via, seenV = saved, savedSeen
 		return true
 	}
 	elem = func(v ssa.Value, d int) {
@@ -307,6 +316,60 @@ func ifaceProducers(s ssa.Value) (prods map[string]bool, user bool, unknown stri
 			}
 		case *ssa.TypeAssert:
 			elem(x.X, d+1)
+		case *ssa.Parameter:
+			// a parameter of a private helper of the module: what its callers pass
+			g := x.Parent()
+			idx := -1
+			for i, prm := range g.Params {
+				if prm == x {
+					idx = i
+				}
+			}
+			if idx < 0 || exported(g) || !InModule(g) {
+				unknown = "parameter " + x.Name() + " of " + FnName(g)
+				return
+			}
+			if via != nil && via.Common().StaticCallee() == g {
+				if args := via.Common().Args; idx < len(args) {
+					saved, savedSeen := via, seenV
+					via, seenV = nil, map[ssa.Value]bool{}
+					elem(args[idx], d+1)
+					via, seenV = saved, savedSeen
+					return
+				}
+			}
+			n := 0
+			for _, cf := range p.Funcs {
+				for _, cb := range cf.Blocks {
+					for _, ci := range cb.Instrs {
+						switch c := ci.(type) {
+						case *ssa.Call:
+							if c.Common().StaticCallee() == g {
+								// receiver first for methods
+								if args := c.Common().Args; idx < len(args) {
+									n++
+									elem(args[idx], d+1)
+								}
+							} else {
+								for _, a := range c.Common().Args {
+									if a == ssa.Value(g) {
+										unknown = FnName(g) + " is used as a function value; the arguments of its parameter " + x.Name() + " cannot all be seen"
+									}
+								}
+							}
+						case *ssa.MakeClosure, *ssa.Store:
+							for _, op := range ci.Operands(nil) {
+								if *op == ssa.Value(g) {
+									unknown = FnName(g) + " is used as a function value; the arguments of its parameter " + x.Name() + " cannot all be seen"
+								}
+							}
+						}
+					}
+				}
+			}
+			if n == 0 {
+				unknown = "parameter " + x.Name() + " of " + FnName(g) + " (no caller found)"
+			}
 		default:
 			if nt, ok := v.Type().(*types.Named); ok && nt.Obj().Name() == "ItemNode" {
 				prods["ItemNode"] = true
